@@ -188,6 +188,13 @@ pub fn archs() -> Vec<(&'static str, Shape, Vec<L>, usize)> {
             vec![L::Dense(2, Linear, true), L::Feedback(vec![L::DenseDrop(2, Linear, true, d)], 2, false, false, Acc::Mean), L::DenseDrop(3, Linear, true, d), L::Dense(1, Linear, true)],
             1,
         ),
+        ("pool-first-dense2", Shape::Triple(1, 2, 2), vec![L::Pool((1, 1), (1, 1)), L::DenseDrop(3, Linear, true, d), L::Dense(1, Linear, true)], 1),
+        (
+            "feedback-first-dense2",
+            Shape::Single(2),
+            vec![L::Feedback(vec![L::DenseDrop(2, Linear, true, d)], 2, false, false, Acc::Mean), L::DenseDrop(3, Linear, true, d), L::Dense(1, Linear, true)],
+            1,
+        ),
         ("dense4-drop-third", Shape::Single(2), vec![L::Dense(2, Linear, false), L::Dense(3, Linear, true), L::DenseDrop(4, Linear, true, d), L::Dense(1, Linear, true)], 1),
     ]
 }
